@@ -100,7 +100,7 @@ def member_src(m, hidx):
         return ("%s    @property\n    def %s(self):\n        LOG.append(('%s.get',))\n        return 'v:%s'\n"
                 "    @%s.setter\n    def %s(self, v):\n        LOG.append(('%s.set', v))\n") % (ex, n, n, n, n, n, n)
     if k == "cattr":
-        return "    %s = 42\n" % n
+        return "    %s = 'SECRET-VALUE-OF-%s'\n" % (n, n)
     if k == "helper" and m["helper_as"] == "class":
         return "    %s = Helper%d()\n" % (n, hidx)
     return ""
@@ -110,6 +110,7 @@ def helper_src(m, hidx):
     ex_cls = "@expose\n" if m["helper_exposed"] == "class" else ""
     ex_m = "    @expose\n" if m["helper_exposed"] == "member" else ""
     s = "%sclass Helper%d(object):\n    def __init__(self, *a, **k):\n        LOG.append(('%s.__init__', a))\n%s    def hm(self, *a, **k):\n        LOG.append(('%s.hm', a))\n        return 'r:hm'\n" % (ex_cls, hidx, m["name"], ex_m, m["name"])
+    s += "    def __repr__(self):\n        LOG.append(('%s.__repr__',))\n        return '<helper SECRET-VALUE-OF-helper>'\n" % m["name"]
     if m["helper_callable"]:
         s += "    def __call__(self, *a, **k):\n        LOG.append(('%s.__call__', a))\n        return 'r:call'\n" % m["name"]
     return s
@@ -127,11 +128,15 @@ def shape_source(shape):
         for m in shape["members"]:
             if m["where"] == where:
                 body.append(member_src(m, hidx.get(id(m), 0)))
+        if where == "base":
+            # printing the target is running its code too (__repr__ / __str__ are reserved names, never served)
+            body.append("    def __repr__(self):\n        LOG.append(('__repr__',))\n        return '<target SECRET-VALUE-OF-repr>'\n"
+                        "    def __str__(self):\n        LOG.append(('__str__',))\n        return '<target SECRET-VALUE-OF-str>'\n")
         if where == "sub":
             init = ["    def __init__(self, *a, **k):\n        LOG.append(('__init__', a))\n        self._marker = 1\n"]
             for m in shape["members"]:
                 if m["kind"] == "iattr":
-                    init.append("        self.%s = 42\n" % m["name"])
+                    init.append("        self.%s = 'SECRET-VALUE-OF-%s'\n" % (m["name"], m["name"]))
                 if m["kind"] == "ifunc":
                     init.append("        self.%s = lambda *a, **k: (LOG.append(('%s.ifunc', a)), 'r:ifunc')[1]\n" % (m["name"], m["name"]))
                 if m["kind"] == "helper" and m["helper_as"] == "inst":
@@ -295,7 +300,7 @@ def do_request(sess, kind, name, rec):
     if m.type != wire.RESULT:
         return "weird", "reply type %d" % m.type
     if m.flags & wire.F_EXC:
-        return "refused", None
+        return "refused", (b"SECRET-VALUE-OF-" in bytes(m.data))
     try:
         data = ser.loads(m.data)
     except Exception as x:
@@ -371,7 +376,8 @@ def run_shape(fx, shape, sername, rec, r, light=False):
 
     def snapshot():
         # (__annotations__ is created lazily by the interpreter on first access of cls.__annotations__: not an effect of Pyro)
-        return (sorted((k, repr(v)[:60]) for k, v in vars(obj).items() if not k.startswith("_pyro")),
+        # (values are not printed unless they are plain data: printing a helper object would run ITS __repr__, which is being watched)
+        return (sorted((k, repr(v)[:60] if isinstance(v, (str, int, float, bool, type(None))) else "<%s at %x>" % (type(v).__name__, id(v))) for k, v in vars(obj).items() if not k.startswith("_pyro")),
                 sorted(k for k in vars(ns["Sub"]) if k != "__annotations__"), sorted(k for k in vars(ns["Base"]) if k != "__annotations__"))
 
     for name in names + NONSTR:
@@ -382,6 +388,10 @@ def run_shape(fx, shape, sername, rec, r, light=False):
                 continue
         kinds = REQ_KINDS if not light else [r.choice(REQ_KINDS)]
         for kind in kinds:
+            try:
+                sess.conn()      # (re)connect first: what a connect handshake does - e.g. the daemon's warning, printing the object, that its class exposes nothing - is not an effect of the request that follows
+            except Exception:
+                pass
             del LOG[:]
             before = snapshot()
             nontrivial = is_str and (name in member_names or name.strip("_").split(".")[0] in {n.strip("_") for n in member_names})
@@ -395,6 +405,12 @@ def run_shape(fx, shape, sername, rec, r, light=False):
                 sess.drop()
                 continue
             log = norm_log(LOG)
+            if P.config.DETAILED_TRACEBACK:
+                # (DETAILED_TRACEBACK is the documented opt-in to tracebacks that print the local variables of every frame, the target among
+                # them: under that setting printing the target is what the application asked for)
+                log = [e for e in log if not str(e[0]).endswith(("__repr__", "__str__"))]
+                if outcome == "refused":
+                    detail = None
             after = snapshot()
             pay = dict(payload_base, name=name, kind=kind)
             if kind in ("call", "batch", "oneway"):
@@ -444,6 +460,9 @@ def run_shape(fx, shape, sername, rec, r, light=False):
                 continue
             if before != after:
                 rec.violation("refused-request-changed-object", "%s request for %r was refused but the object changed: %r -> %r" % (kind, name, before, after), pay)
+                continue
+            if outcome == "refused" and detail is True:
+                rec.violation("refusal-discloses-unexposed-value", "%s request for unexposed/private %r was refused, but the error reply carries the value of an unexposed attribute (or the text the target's own __repr__ produces)" % (kind, name), pay)
                 continue
             rec.count("refused_ok")
     # advertised member list == served set
